@@ -91,6 +91,13 @@ func (h *killedHandler) cleanupIfNotRestarting() {
 	h.ctx.EventStream().UnsubscribeAll(h.ctx)
 	h.ctx.system.removeActorContext(h.ctx)
 
+	// 通知事件流（必须先于通知父节点：父节点收到通知后可能立即完成自身终止并发布事件，
+	// 若此处后发布，则会出现父 Actor 的 ActorKilledEvent 先于其后代的情况）
+	h.ctx.EventStream().Publish(h.ctx, ves.ActorKilledEvent{
+		ActorRef: h.ctx.ref,
+		Type:     reflect.TypeOf(h.ctx.actor),
+	})
+
 	// 通知所有监听者
 	for _, watcher := range h.ctx.watchers {
 		h.ctx.tell(true, watcher, h.selfKilledMessage)
@@ -100,12 +107,6 @@ func (h *killedHandler) cleanupIfNotRestarting() {
 	if h.ctx.parent != nil {
 		h.ctx.tell(true, h.ctx.parent, h.selfKilledMessage)
 	}
-
-	// 通知事件流
-	h.ctx.EventStream().Publish(h.ctx, ves.ActorKilledEvent{
-		ActorRef: h.ctx.ref,
-		Type:     reflect.TypeOf(h.ctx.actor),
-	})
 
 	// 因故障被挂起的邮箱在终止后需要恢复，使积压的普通消息得以排空并进入死信，而非永久滞留
 	h.ctx.mailbox.Resume()
